@@ -374,6 +374,94 @@ func simCall(name, id string, args ...ast.Expr) *ast.CallExpr {
 	}
 }
 
+// rewriteSelect turns
+//
+//	select { case ch <- v: A; case x, ok := <-ch2: B; default: C }
+//
+// into
+//
+//	switch verifsimrtI, verifsimrtV, verifsimrtOK2 := verifsimrt.Select(site, true,
+//	        verifsimrt.SendCase(ch, v), verifsimrt.RecvCase(ch2)); verifsimrtI {
+//	case 0: _, _ = verifsimrtV, verifsimrtOK2; A
+//	case 1: _, _ = verifsimrtV, verifsimrtOK2; x, ok := verifsimrt.As(ch2, verifsimrtV), verifsimrtOK2; B
+//	case -1: _, _ = verifsimrtV, verifsimrtOK2; C
+//	}
+//
+// Channel expressions are evaluated twice (once for the case, once for As): only
+// side-effect-free channel expressions (identifiers, selectors) are accepted.
+func rewriteSelect(p *packages.Package, relf string, sel *ast.SelectStmt, add func(ast.Node, string) string) (*ast.SwitchStmt, string) {
+	pure := func(e ast.Expr) bool {
+		ok := true
+		ast.Inspect(e, func(n ast.Node) bool {
+			switch n.(type) {
+			case *ast.CallExpr, *ast.UnaryExpr, *ast.IndexExpr:
+				ok = false
+			}
+			return ok
+		})
+		return ok
+	}
+	id := add(sel, "select")
+	var cases []ast.Expr
+	var clauses []ast.Stmt
+	hasDefault := false
+	use := &ast.AssignStmt{Lhs: []ast.Expr{ast.NewIdent("_"), ast.NewIdent("_")}, Tok: token.ASSIGN, Rhs: []ast.Expr{ast.NewIdent("verifsimrtV"), ast.NewIdent("verifsimrtOK2")}}
+	for _, st := range sel.Body.List {
+		cc := st.(*ast.CommClause)
+		body := append([]ast.Stmt{use}, cc.Body...)
+		if cc.Comm == nil {
+			hasDefault = true
+			clauses = append(clauses, &ast.CaseClause{List: []ast.Expr{&ast.UnaryExpr{Op: token.SUB, X: &ast.BasicLit{Kind: token.INT, Value: "1"}}}, Body: body})
+			continue
+		}
+		idx := &ast.BasicLit{Kind: token.INT, Value: fmt.Sprint(len(cases))}
+		switch cm := cc.Comm.(type) {
+		case *ast.SendStmt:
+			if !pure(cm.Chan) {
+				return nil, "channel expression with side effects"
+			}
+			cases = append(cases, &ast.CallExpr{Fun: &ast.SelectorExpr{X: ast.NewIdent("verifsimrt"), Sel: ast.NewIdent("SendCase")}, Args: []ast.Expr{cm.Chan, cm.Value}})
+		case *ast.ExprStmt:
+			u, ok := cm.X.(*ast.UnaryExpr)
+			if !ok || u.Op != token.ARROW || !pure(u.X) {
+				return nil, "unsupported receive clause"
+			}
+			cases = append(cases, &ast.CallExpr{Fun: &ast.SelectorExpr{X: ast.NewIdent("verifsimrt"), Sel: ast.NewIdent("RecvCase")}, Args: []ast.Expr{u.X}})
+		case *ast.AssignStmt:
+			if len(cm.Rhs) != 1 || len(cm.Lhs) > 2 {
+				return nil, "unsupported receive clause"
+			}
+			u, ok := cm.Rhs[0].(*ast.UnaryExpr)
+			if !ok || u.Op != token.ARROW || !pure(u.X) {
+				return nil, "unsupported receive clause"
+			}
+			cases = append(cases, &ast.CallExpr{Fun: &ast.SelectorExpr{X: ast.NewIdent("verifsimrt"), Sel: ast.NewIdent("RecvCase")}, Args: []ast.Expr{u.X}})
+			rhs := []ast.Expr{&ast.CallExpr{Fun: &ast.SelectorExpr{X: ast.NewIdent("verifsimrt"), Sel: ast.NewIdent("As")}, Args: []ast.Expr{u.X, ast.NewIdent("verifsimrtV")}}}
+			if len(cm.Lhs) == 2 {
+				rhs = append(rhs, ast.NewIdent("verifsimrtOK2"))
+			}
+			asg := &ast.AssignStmt{Lhs: cm.Lhs, Tok: cm.Tok, Rhs: rhs}
+			body = append([]ast.Stmt{use, asg}, cc.Body...)
+		default:
+			return nil, "unsupported clause"
+		}
+		clauses = append(clauses, &ast.CaseClause{List: []ast.Expr{idx}, Body: body})
+	}
+	hd := "false"
+	if hasDefault {
+		hd = "true"
+	}
+	call := &ast.CallExpr{
+		Fun:  &ast.SelectorExpr{X: ast.NewIdent("verifsimrt"), Sel: ast.NewIdent("Select")},
+		Args: append([]ast.Expr{&ast.BasicLit{Kind: token.STRING, Value: fmt.Sprintf("%q", id)}, ast.NewIdent(hd)}, cases...),
+	}
+	return &ast.SwitchStmt{
+		Init: &ast.AssignStmt{Lhs: []ast.Expr{ast.NewIdent("verifsimrtI"), ast.NewIdent("verifsimrtV"), ast.NewIdent("verifsimrtOK2")}, Tok: token.DEFINE, Rhs: []ast.Expr{call}},
+		Tag:  ast.NewIdent("verifsimrtI"),
+		Body: &ast.BlockStmt{List: clauses},
+	}, ""
+}
+
 func rewriteConcurrency(p *packages.Package, f *ast.File, relf string, sites *[]site) (n int, skipped []string) {
 	add := func(node ast.Node, kind string) string {
 		id := pos(p, relf, node) + ":" + kind
@@ -384,8 +472,13 @@ func rewriteConcurrency(p *packages.Package, f *ast.File, relf string, sites *[]
 	astutil.Apply(f, func(c *astutil.Cursor) bool {
 		switch x := c.Node().(type) {
 		case *ast.SelectStmt:
-			skipped = append(skipped, pos(p, relf, x)+" (select statement)")
-			return false
+			sw, why := rewriteSelect(p, relf, x, add)
+			if sw == nil {
+				skipped = append(skipped, pos(p, relf, x)+" (select statement: "+why+")")
+				return false
+			}
+			c.Replace(sw)
+			return true // bodies may contain further channel operations
 		case *ast.GoStmt:
 			id := add(x, "go")
 			call := x.Call
@@ -571,6 +664,7 @@ package simrt
 
 import (
 	"fmt"
+	"reflect"
 	"sort"
 	"sync"
 )
@@ -709,38 +803,104 @@ func RWRUnlock(site string, m *sync.RWMutex) {
 // ---- R4: goroutines and channels ----------------------------------------------
 //
 // With Sim == nil these are the plain Go operations. With a simulator installed
-// goroutines become scheduler workers and channels are simulated queues: a
-// sender parks until its item has been taken (capacity 0) and a receiver parks
-// until an item or a close arrives; parking and waking go through the hooks, so
-// the scheduler decides every interleaving and sees every deadlock.
+// goroutines become scheduler workers and channels are simulated: a sender
+// leaves an offer and parks until a receiver has taken it (or, for a buffered
+// channel, puts the value into the buffer), a receiver parks until an offer, a
+// buffered value or a close arrives; select picks among the ready cases (the
+// simulator chooses which) or parks with tentative offers that a receiver may
+// take. Parking and waking go through the hooks, so the scheduler decides every
+// interleaving and sees every deadlock.
 
 type Simulator struct {
 	Spawn   func(site string, fn func())
-	Blocked func(site string) // park until some other worker reports an event
-	Event   func(site string) // something changed that may unblock others (also a switch point)
+	Blocked func(site string)  // park until some other worker reports an event
+	Event   func(site string)  // something changed that may unblock others (also a switch point)
+	Choose  func(n int) int    // which of n ready select cases (nil: the first)
 }
 
 var Sim *Simulator
 
-type simChan struct {
-	q      []any
-	sent   int
-	taken  int
-	closed bool
+type selState struct{ chosen int } // -2 undecided
+
+type offer struct {
+	v     any
+	sel   *selState // nil: plain send (committed)
+	idx   int
+	taken bool
 }
 
-var simChans = map[any]*simChan{}
+type simChan struct {
+	buf     []any
+	offers  []*offer
+	closed  bool
+	waiters int // receivers parked on this channel (plain or in a select)
+}
+
+var simChans = map[uintptr]*simChan{}
 
 // ResetChannels forgets all simulated channel state (between cases).
-func ResetChannels() { simChans = map[any]*simChan{} }
+func ResetChannels() { simChans = map[uintptr]*simChan{} }
 
 func chanOf(ch any) *simChan {
-	c := simChans[ch]
+	k := reflect.ValueOf(ch).Pointer()
+	c := simChans[k]
 	if c == nil {
 		c = &simChan{}
-		simChans[ch] = c
+		simChans[k] = c
 	}
 	return c
+}
+
+// live drops offers of selects that were decided otherwise and returns the pending ones.
+func (c *simChan) live() []*offer {
+	out := c.offers[:0]
+	for _, o := range c.offers {
+		if o.taken || (o.sel != nil && o.sel.chosen != -2) {
+			continue
+		}
+		out = append(out, o)
+	}
+	c.offers = out
+	return out
+}
+
+func (c *simChan) committed() int {
+	n := 0
+	for _, o := range c.live() {
+		if o.sel == nil {
+			n++
+		}
+	}
+	return n
+}
+
+func (c *simChan) recvReady() bool { return len(c.buf) > 0 || len(c.live()) > 0 || c.closed }
+
+// take performs a receive that is known to be ready.
+func (c *simChan) take(capacity int) (any, bool) {
+	if len(c.buf) > 0 {
+		v := c.buf[0]
+		c.buf = c.buf[1:]
+		// a sender parked on the full buffer moves in
+		if l := c.live(); len(l) > 0 && len(c.buf) < capacity {
+			o := l[0]
+			o.taken = true
+			if o.sel != nil {
+				o.sel.chosen = o.idx
+			}
+			c.buf = append(c.buf, o.v)
+		}
+		return v, true
+	}
+	if l := c.live(); len(l) > 0 {
+		o := l[0]
+		o.taken = true
+		if o.sel != nil {
+			o.sel.chosen = o.idx
+		}
+		return o.v, true
+	}
+	return nil, false // closed
 }
 
 func Go(site string, fn func()) {
@@ -751,7 +911,7 @@ func Go(site string, fn func()) {
 	go fn()
 }
 
-func Send[T any](site string, ch chan T, v T) {
+func Send[T any](site string, ch chan<- T, v T) {
 	s := Sim
 	if s == nil {
 		ch <- v
@@ -761,11 +921,15 @@ func Send[T any](site string, ch chan T, v T) {
 	if c.closed {
 		panic("send on closed channel")
 	}
-	c.q = append(c.q, v)
-	my := c.sent
-	c.sent++
+	if len(c.buf) < cap(ch) && len(c.live()) == 0 {
+		c.buf = append(c.buf, v)
+		s.Event(site)
+		return
+	}
+	o := &offer{v: v}
+	c.offers = append(c.offers, o)
 	s.Event(site)
-	for c.taken+cap(ch) <= my {
+	for !o.taken {
 		if c.closed {
 			panic("send on closed channel")
 		}
@@ -773,33 +937,33 @@ func Send[T any](site string, ch chan T, v T) {
 	}
 }
 
-func Recv2[T any](site string, ch chan T) (T, bool) {
+func Recv2[T any](site string, ch <-chan T) (T, bool) {
 	s := Sim
 	if s == nil {
 		v, ok := <-ch
 		return v, ok
 	}
 	c := chanOf(ch)
-	for len(c.q) == 0 {
-		if c.closed {
-			var zero T
-			return zero, false
-		}
+	for !c.recvReady() {
+		c.waiters++
 		s.Blocked(site)
+		c.waiters--
 	}
-	v := c.q[0].(T)
-	c.q = c.q[1:]
-	c.taken++
+	v, ok := c.take(cap(ch))
 	s.Event(site)
-	return v, true
+	if !ok {
+		var zero T
+		return zero, false
+	}
+	return v.(T), true
 }
 
-func Recv[T any](site string, ch chan T) T {
+func Recv[T any](site string, ch <-chan T) T {
 	v, _ := Recv2(site, ch)
 	return v
 }
 
-func Close[T any](site string, ch chan T) {
+func Close[T any](site string, ch chan<- T) {
 	s := Sim
 	if s == nil {
 		close(ch)
@@ -811,5 +975,169 @@ func Close[T any](site string, ch chan T) {
 	}
 	c.closed = true
 	s.Event(site)
+}
+
+// SelCase is one communication clause of a select statement.
+type SelCase struct {
+	ch   any
+	send bool
+	val  any
+	capa int
+	rv   reflect.Value
+}
+
+func SendCase[T any](ch chan<- T, v T) SelCase {
+	return SelCase{ch: ch, send: true, val: v, capa: cap(ch), rv: reflect.ValueOf(ch)}
+}
+
+func RecvCase[T any](ch <-chan T) SelCase {
+	return SelCase{ch: ch, capa: cap(ch), rv: reflect.ValueOf(ch)}
+}
+
+// As converts the value a RecvCase delivered back to the channel's element type.
+func As[T any](ch <-chan T, v any) T {
+	if v == nil {
+		var zero T
+		return zero
+	}
+	return v.(T)
+}
+
+// Select returns the index of the clause that fired (-1: default), and for a
+// receive clause the value and the ok flag.
+func Select(site string, hasDefault bool, cases ...SelCase) (int, any, bool) {
+	s := Sim
+	if s == nil {
+		rc := make([]reflect.SelectCase, 0, len(cases)+1)
+		for _, c := range cases {
+			if c.send {
+				rc = append(rc, reflect.SelectCase{Dir: reflect.SelectSend, Chan: c.rv, Send: reflect.ValueOf(c.val)})
+			} else {
+				rc = append(rc, reflect.SelectCase{Dir: reflect.SelectRecv, Chan: c.rv})
+			}
+		}
+		if hasDefault {
+			rc = append(rc, reflect.SelectCase{Dir: reflect.SelectDefault})
+		}
+		i, v, ok := reflect.Select(rc)
+		if hasDefault && i == len(cases) {
+			return -1, nil, false
+		}
+		if cases[i].send {
+			return i, nil, false
+		}
+		if !ok {
+			return i, nil, false
+		}
+		return i, v.Interface(), true
+	}
+	chans := make([]*simChan, len(cases))
+	for i, c := range cases {
+		if !c.rv.IsNil() {
+			chans[i] = chanOf(c.ch)
+		}
+	}
+	ready := func() []int {
+		var r []int
+		for i, c := range cases {
+			sc := chans[i]
+			if sc == nil {
+				continue // nil channel: never ready
+			}
+			if c.send {
+				if sc.closed || (len(sc.buf) < c.capa && len(sc.live()) == 0) || sc.waiters > sc.committed() {
+					r = append(r, i)
+				}
+			} else if sc.recvReady() {
+				r = append(r, i)
+			}
+		}
+		return r
+	}
+	fire := func(i int) (int, any, bool) {
+		c, sc := cases[i], chans[i]
+		if c.send {
+			if sc.closed {
+				panic("send on closed channel")
+			}
+			if len(sc.buf) < c.capa && len(sc.live()) == 0 {
+				sc.buf = append(sc.buf, c.val)
+				s.Event(site)
+				return i, nil, false
+			}
+			o := &offer{v: c.val}
+			sc.offers = append(sc.offers, o)
+			s.Event(site)
+			for !o.taken {
+				if sc.closed {
+					panic("send on closed channel")
+				}
+				s.Blocked(site)
+			}
+			return i, nil, false
+		}
+		v, ok := sc.take(c.capa)
+		s.Event(site)
+		return i, v, ok
+	}
+	pick := func(r []int) int {
+		// a receive clause for which a sender has already committed itself goes first (that
+		// sender counted on us); otherwise the simulator chooses
+		for _, i := range r {
+			if !cases[i].send && chans[i].committed() > 0 {
+				return i
+			}
+		}
+		if s.Choose != nil && len(r) > 1 {
+			return r[s.Choose(len(r))]
+		}
+		return r[0]
+	}
+	if r := ready(); len(r) > 0 {
+		return fire(pick(r))
+	}
+	if hasDefault {
+		return -1, nil, false
+	}
+	st := &selState{chosen: -2}
+	for i, c := range cases {
+		if c.send && chans[i] != nil {
+			chans[i].offers = append(chans[i].offers, &offer{v: c.val, sel: st, idx: i})
+		}
+	}
+	s.Event(site)
+	for {
+		for i, c := range cases {
+			if !c.send && chans[i] != nil {
+				chans[i].waiters++
+			}
+		}
+		s.Blocked(site)
+		for i, c := range cases {
+			if !c.send && chans[i] != nil {
+				chans[i].waiters--
+			}
+		}
+		if st.chosen >= 0 {
+			return st.chosen, nil, false // a receiver took one of our offers
+		}
+		var r []int
+		for i, c := range cases {
+			if c.send || chans[i] == nil {
+				if c.send && chans[i] != nil && chans[i].closed {
+					panic("send on closed channel")
+				}
+				continue
+			}
+			if chans[i].recvReady() {
+				r = append(r, i)
+			}
+		}
+		if len(r) > 0 {
+			i := pick(r)
+			st.chosen = i // withdraws our tentative offers
+			return fire(i)
+		}
+	}
 }
 `
